@@ -294,6 +294,10 @@ bool Ctx::violation(const std::string &prop, const std::string &monitor, const s
 		count("other_property_observation:" + prop);
 		return false;
 	}
+	if (viol.size() >= 40) {
+		count("violations_beyond_cap");
+		return true;
+	}
 	Violation v;
 	v.property = prop;
 	v.monitor = monitor;
